@@ -1,6 +1,7 @@
 package gocv
 
 import (
+	"fmt"
 	"go/ast"
 	"go/token"
 	"go/types"
@@ -424,6 +425,15 @@ func mapDelete(m Val, k string) Val {
 
 // isLocalFreshSlice: e is a local (non-parameter) variable only ever assigned fresh slices.
 func (ex *Exec) isLocalFreshSlice(e ast.Expr) bool {
+	if sel, ok := unparen(e).(*ast.SelectorExpr); ok {
+		// a slice-typed field of an object allocated in this function by &T{...} / new(T)
+		if id, ok := unparen(sel.X).(*ast.Ident); ok {
+			if obj, ok := ex.info.Uses[id].(*types.Var); ok && ex.freshPtrVars[obj] {
+				return true
+			}
+		}
+		return false
+	}
 	id, ok := unparen(e).(*ast.Ident)
 	if !ok {
 		return false
@@ -654,6 +664,7 @@ func (ex *Exec) rangeStmt(st *State, s *ast.RangeStmt, c *ctl, k func(*State)) {
 			if keyObj != nil {
 				ex.writeVar(st2, keyObj, i)
 			}
+			st2.extra[fmt.Sprintf("$i%d", ord)] = i
 			if valObj != nil && !isInt {
 				ex.writeVar(st2, valObj, Val{T: app("select", app("s-arr", xs.T), i.T), S: xs.S.Elem, GoT: elemGoType(xt)})
 			}
@@ -729,6 +740,9 @@ func (ex *Exec) rangeStmt(st *State, s *ast.RangeStmt, c *ctl, k func(*State)) {
 
 func (ex *Exec) rangeExtra(st *State, keyObj types.Object, i Val, s *ast.RangeStmt) map[string]Val {
 	m := map[string]Val{"$i": i}
+	if ord, ok := ex.loopOrd[s]; ok {
+		m[fmt.Sprintf("$i%d", ord)] = i
+	}
 	if keyObj != nil {
 		m[keyObj.Name()] = i
 	}
